@@ -13,7 +13,8 @@
    CodeGenFacts.parse_equation_code_spec proves that parse_equation_M returns exactly these two strings.
 
    Part 2 (semantic level).  For the arithmetic subset ( + - * / ** unary minus, parentheses, decimal literals,
-   exp log max min abs ) the scanned items are read as a token sequence and parsed (Python's precedences) into the
+   exp log max min abs; at the top of a right-hand side also conditional expressions  a if c else b  with comparisons,
+   and / or / not ) the scanned items are read as a token sequence and parsed (Python's precedences) into the
    expression language of Eval.v:  `Y[k0] = rhs`  becomes  SAssign (row Y) k0 (tree rhs),
    a variable / {parameter} / <error> term with integer index k becomes ERead (row name) k.  A script becomes the
    list of its statements in the order of the merged SYMBOL list (the order build_model_definition emits them),
@@ -132,12 +133,15 @@ Definition text_guard (eq : string) : bool :=
 (* Part 2: tokens, trees, statements, programs                                                            *)
 (* ====================================================================================================== *)
 
+Inductive xtok : Type := XCmp (o : cmpop) | XIf | XElse | XAnd | XOr | XNot.
+
 Inductive ctok : Type :=
 | CRead (name : string) (k : Z)       (* NAME, {NAME}, <NAME> with the integer index k (0 when none is written) *)
 | CFun (name : string)                (* function name as it appears in the code (after replacement_function_names) *)
 | CNum (s : string)                   (* maximal run of digits and dots *)
 | CPlus | CMinus | CStar | CSlash | CPow | CLPar | CRPar | CComma | CAssign
-| CBad.                               (* anything else: outside the subset *)
+| CBad                                (* anything else: outside the subset *)
+| CX (x : xtok).                      (* comparison operators and the keywords if / else / and / or / not *)
 
 Definition tok_of_match (m : tmatch) : ctok :=
   match mk_term m with
@@ -146,6 +150,10 @@ Definition tok_of_match (m : tmatch) : ctok :=
     | TVariable | TParameter | TError =>
       match tindex t with Some (IInt k) => CRead (tname t) k | _ => CBad end
     | TFunction => match term_code t with Some c => CFun c | None => CBad end
+    | TKeyword =>
+      if String.eqb (tname t) "if" then CX XIf else if String.eqb (tname t) "else" then CX XElse
+      else if String.eqb (tname t) "and" then CX XAnd else if String.eqb (tname t) "or" then CX XOr
+      else if String.eqb (tname t) "not" then CX XNot else CBad
     | _ => CBad
     end
   | Raise _ => CBad
@@ -154,11 +162,20 @@ Definition tok_of_match (m : tmatch) : ctok :=
 Definition tok_of_char (c : ascii) : ctok :=
   if Ascii.eqb c "+" then CPlus else if Ascii.eqb c "-" then CMinus else if Ascii.eqb c "/" then CSlash
   else if Ascii.eqb c "(" then CLPar else if Ascii.eqb c ")" then CRPar else if Ascii.eqb c "," then CComma
-  else if Ascii.eqb c "=" then CAssign else CBad.
+  else CBad.
 
-Inductive lstate : Type := LNone | LNum (acc : string) (* reversed *) | LStar.
+(* `<` `>` `=` `!` wait for a following `=`: alone they are < > (assignment) and nothing; with it <= >= == != *)
+Definition is_opc (c : ascii) : bool := Ascii.eqb c "<" || Ascii.eqb c ">" || Ascii.eqb c "=" || Ascii.eqb c "!".
+Definition op1 (c : ascii) : ctok :=
+  if Ascii.eqb c "<" then CX (XCmp CLt) else if Ascii.eqb c ">" then CX (XCmp CGt)
+  else if Ascii.eqb c "=" then CAssign else CBad.
+Definition op2 (c : ascii) : ctok :=
+  if Ascii.eqb c "<" then CX (XCmp CLe) else if Ascii.eqb c ">" then CX (XCmp CGe)
+  else if Ascii.eqb c "=" then CX (XCmp CEq) else CX (XCmp CNe).
+
+Inductive lstate : Type := LNone | LNum (acc : string) (* reversed *) | LStar | LOp (c : ascii).
 Definition flush (st : lstate) : list ctok :=
-  match st with LNone => [] | LNum a => [CNum (rev_str a "")] | LStar => [CStar] end.
+  match st with LNone => [] | LNum a => [CNum (rev_str a "")] | LStar => [CStar] | LOp c => [op1 c] end.
 
 Fixpoint lex_items (st : lstate) (l : list item) : list ctok :=
   match l with
@@ -174,6 +191,11 @@ Fixpoint lex_items (st : lstate) (l : list item) : list ctok :=
       match st with
       | LStar => CPow :: lex_items LNone r
       | _ => (flush st ++ lex_items LStar r)%list
+      end
+    else if is_opc c then
+      match st with
+      | LOp p => if Ascii.eqb c "=" then op2 p :: lex_items LNone r else (flush st ++ lex_items (LOp c) r)%list
+      | _ => (flush st ++ lex_items (LOp c) r)%list
       end
     else if is_space c then (flush st ++ lex_items LNone r)%list
     else (flush st ++ tok_of_char c :: lex_items LNone r)%list
@@ -348,20 +370,135 @@ Section Tree.
 
   Definition tree_fuel (ts : list ctok) : nat := 8 * length ts + 8.
 
-  (* one statement  NAME[k0] = rhs  from its token sequence: (left-hand name, statement) *)
-  Definition stmt_of_tokens (ts : list ctok) : option (string * sstmt) :=
+End Tree.
+
+(* ---- conditional expressions:  a if <condition> else b  at the top of a right-hand side ----
+   condition := comparison of two arithmetic expressions | not c | c and c | c or c | ( c )      (Python's precedences)
+   The source tree keeps the TEXTUAL shape (value, condition, alternative); `denote` turns it into the expression
+   language of Eval.v, whose only conditional is  a if l <op> r else b : and / or / not become nested conditionals,
+   which evaluate the same sub-expressions in the same order (Python short-circuits) and select the same branch. *)
+Inductive scond : Type :=
+| SCmp (o : cmpop) (l r : sexpr) | SAnd (a b : scond) | SOr (a b : scond) | SNot (a : scond).
+Inductive stest : Type :=
+| SVal (e : sexpr)                                  (* a plain arithmetic expression *)
+| SIf (a : sexpr) (c : scond) (b : stest).          (* a if c else b   (b may be a conditional again) *)
+
+Fixpoint mk_if (c : scond) (a b : sexpr) : sexpr :=
+  match c with
+  | SCmp o l r => EIf o l r a b
+  | SAnd c1 c2 => mk_if c1 (mk_if c2 a b) b         (* c1 false: b without looking at c2 *)
+  | SOr c1 c2 => mk_if c1 a (mk_if c2 a b)          (* c1 true: a without looking at c2 *)
+  | SNot c1 => mk_if c1 b a
+  end.
+Fixpoint denote (s : stest) : sexpr :=
+  match s with SVal e => e | SIf a c b => mk_if c a (denote b) end.
+
+(* the series terms in the order they are WRITTEN *)
+Fixpoint cond_reads (c : scond) : list (nat * Z) :=
+  match c with
+  | SCmp _ l r => (expr_reads string l ++ expr_reads string r)%list
+  | SAnd a b | SOr a b => (cond_reads a ++ cond_reads b)%list
+  | SNot a => cond_reads a
+  end.
+Fixpoint test_reads (s : stest) : list (nat * Z) :=
+  match s with
+  | SVal e => expr_reads string e
+  | SIf a c b => (expr_reads string a ++ cond_reads c ++ test_reads b)%list
+  end.
+
+Section Test.
+  Variable row : string -> option nat.
+  Notation arith := (fun ts => p_expr row (tree_fuel ts) ts).
+
+  Fixpoint p_or (fuel : nat) (ts : list ctok) {struct fuel} : option (scond * list ctok) :=
+    match fuel with
+    | O => None
+    | S f => match p_and f ts with Some (c, r) => p_or_loop f c r | None => None end
+    end
+  with p_or_loop (fuel : nat) (acc : scond) (ts : list ctok) {struct fuel} : option (scond * list ctok) :=
+    match fuel with
+    | O => None
+    | S f =>
+      match ts with
+      | CX XOr :: r => match p_and f r with Some (b, r') => p_or_loop f (SOr acc b) r' | None => None end
+      | _ => Some (acc, ts)
+      end
+    end
+  with p_and (fuel : nat) (ts : list ctok) {struct fuel} : option (scond * list ctok) :=
+    match fuel with
+    | O => None
+    | S f => match p_not f ts with Some (c, r) => p_and_loop f c r | None => None end
+    end
+  with p_and_loop (fuel : nat) (acc : scond) (ts : list ctok) {struct fuel} : option (scond * list ctok) :=
+    match fuel with
+    | O => None
+    | S f =>
+      match ts with
+      | CX XAnd :: r => match p_not f r with Some (b, r') => p_and_loop f (SAnd acc b) r' | None => None end
+      | _ => Some (acc, ts)
+      end
+    end
+  with p_not (fuel : nat) (ts : list ctok) {struct fuel} : option (scond * list ctok) :=
+    match fuel with
+    | O => None
+    | S f =>
+      match ts with
+      | CX XNot :: r => match p_not f r with Some (c, r') => Some (SNot c, r') | None => None end
+      | _ => p_cmp f ts
+      end
+    end
+  with p_cmp (fuel : nat) (ts : list ctok) {struct fuel} : option (scond * list ctok) :=
+    match fuel with
+    | O => None
+    | S f =>
+      match arith ts with
+      | Some (l, CX (XCmp o) :: r) =>
+        match arith r with Some (r', rest) => Some (SCmp o l r', rest) | None => None end
+      | _ =>
+        match ts with
+        | CLPar :: r => match p_or f r with Some (c, CRPar :: rest) => Some (c, rest) | _ => None end
+        | _ => None
+        end
+      end
+    end.
+
+  Fixpoint p_test (fuel : nat) (ts : list ctok) {struct fuel} : option (stest * list ctok) :=
+    match fuel with
+    | O => None
+    | S f =>
+      match arith ts with
+      | Some (a, CX XIf :: r) =>
+        match p_or f r with
+        | Some (c, CX XElse :: r2) => match p_test f r2 with Some (b, rest) => Some (SIf a c b, rest) | None => None end
+        | _ => None
+        end
+      | Some (a, rest) => Some (SVal a, rest)
+      | None => None
+      end
+    end.
+
+  Definition test_fuel (ts : list ctok) : nat := 8 * length ts + 8.
+
+  (* one statement  NAME[k0] = rhs  from its token sequence: (left-hand name, source tree of the right-hand side) *)
+  Definition src_of_tokens (ts : list ctok) : option (string * nat * Z * stest) :=
     match ts with
     | CRead y k0 :: CAssign :: rhs =>
-      match row y, p_expr (tree_fuel rhs) rhs with
-      | Some i, Some (e, []) => Some (y, SAssign i k0 (fold_ints e))
+      match row y, p_test (test_fuel rhs) rhs with
+      | Some i, Some (st, []) => Some (y, i, k0, st)
       | _, _ => None
       end
     | _ => None
     end.
+  (* … and the statement it denotes *)
+  Definition stmt_of_tokens (ts : list ctok) : option (string * sstmt) :=
+    match src_of_tokens ts with
+    | Some (y, i, k0, st) => Some (y, SAssign i k0 (fold_ints (denote st)))
+    | None => None
+    end.
 
   Definition stmt_of_equation (eq : string) : option (string * sstmt) :=
     stmt_of_tokens (lex_items LNone (scan_items eq)).
-End Tree.
+End Test.
 
 (* A series NAME is accessed as the attribute `_NAME` of `self` INSIDE A CLASS BODY: when `_NAME` begins with two
    underscores and does not end with two, CPython's private-name mangling rewrites `self.__x` to `self._Model__x`, an
